@@ -34,7 +34,7 @@ TS == "'''"
 (* Features                                                                  *)
 Feats == {"title", "desc", "inherit", "graph", "place", "env", "shebang"}
 Dom(f) ==
-  CASE f = "title"   -> {"bare", "dq", "sq", "tdq", "comment", "dqhash", "cont", "jvar", "tvar", "jraw", "contws"}
+  CASE f = "title"   -> {"bare", "dq", "sq", "tdq", "comment", "dqhash", "cont", "jvar", "tvar", "jraw", "contws", "jcont"}
     [] f = "desc"    -> {"none", "tdq", "tsq", "closecomment", "hashline", "blank", "cont", "include", "jfor",
                          "jinclude", "indent", "oneline", "inlinefirst"}
     [] f = "inherit" -> {"none", "bare", "quoted", "comment", "cont"}
@@ -51,7 +51,7 @@ Within(k) == IF k = 0 THEN {Default}
                   IN P \cup UNION { { [c EXCEPT ![f] = v] : v \in Dom(f) } : c \in P, f \in Feats }
 Cases == Within(K)
 
-JinjaOn(c) == \/ c.title \in {"jvar", "tvar", "jraw"} \/ c.desc \in {"jfor", "jinclude"} \/ c.graph = "jfor"
+JinjaOn(c) == \/ c.title \in {"jvar", "tvar", "jraw", "jcont"} \/ c.desc \in {"jfor", "jinclude"} \/ c.graph = "jfor"
               \/ c.place = "jfor" \/ c.shebang = "yes"
 
 \* Domain restrictions (documented behaviour that is not a defect):
@@ -90,10 +90,13 @@ TitleSrc(s) ==
     [] s = "tvar"    -> <<I1 \o "title = {{ T }}">>
     [] s = "jraw"    -> <<I1 \o "title = \"{% raw %}{{ hello }} {# world #}{% endraw %}\"">>
     [] s = "contws"  -> <<I1 \o "title = hello \\", I2 \o "world \\ ">>
+    \* the continuation character is produced by the template (Jinja2 runs before lines are joined), the source has none
+    [] s = "jcont"   -> <<I1 \o "title = hello {{ BS }}", I2 \o "world">>
 \* a continuation joins the next physical line (with its indentation) onto the text before the backslash
 TitleVal(s) ==
   CASE s = "dqhash" -> "hello # world"
     [] s = "cont"   -> "hello " \o I2 \o "world"
+    [] s = "jcont"  -> "hello " \o I2 \o "world"
     [] s = "jraw"   -> "{{ hello }} {# world #}"      \* raw block: Jinja2 syntax passes through as text
     [] s = "contws" -> "hello " \o I2 \o "world \\"
     [] OTHER        -> "hello world"
@@ -191,6 +194,7 @@ ATail(c) == IF c.place = "dupsec"
 Main(c) ==
   (IF JinjaOn(c) THEN <<"#!jinja2", "{# a Jinja2 comment #}">> ELSE <<>>)
   \o (IF c.title = "jvar" THEN <<"{% set V = \"hello world\" %}">> ELSE <<>>)
+  \o (IF c.title = "jcont" THEN <<"{% set BS = \"\\\\\" %}">> ELSE <<>>)
   \o <<"# a full-line comment", "", "[meta]">> \o TitleSrc(c.title) \o DescSrc(c.desc)
   \o <<"[scheduling]", I1 \o "[[graph]]">> \o GraphSrc(c.graph)
   \o <<"[runtime]", I1 \o "[[A]]", I1 \o "[[B]]">> \o ASrc(c)
